@@ -305,6 +305,11 @@ pub fn run(ctx: &Ctx) {
         done += 1;
     }
     ctx.extra("random_trees", json!(done));
+    // history independence: the same ordinary calls before and after calls that fail or are unusual
+    {
+        let mut hrng = Rng::derive(ctx.seed, 1, 99);
+        super::disturb::probe_history_independence(ctx, "C01", &mut hrng, ctx.pick(16, 60), &super::disturb::standard_probe);
+    }
 }
 
 fn approx_bytes(v: &Val) -> usize {
